@@ -615,3 +615,545 @@ Section GenFold.
       + rewrite app_length, zipf_length, Hla. assumption.
   Qed.
 End GenFold.
+
+(* ---------------- projections: what depends on the attribute layer, what on the signal list ---------------- *)
+Definition ps_upd (p : psignal) (sv : fl) (st : Z) (at_ : list attr_asg) : psignal :=
+  mkpsignal (ps_name p) (ps_kind p) (ps_start p) (ps_size p) (ps_signed p) (ps_scale p) (ps_offset p) (ps_min p) (ps_max p)
+            (ps_unit p) (ps_enum p) (ps_parent p) (ps_membership p) (ps_desc p) sv st at_.
+
+(* the fields of a signal the attribute layer never touches *)
+Definition score (s : signal) :=
+  (s_id s, s_name s, s_kind s, s_rel s, s_parent s, s_groups s, s_size s, s_signed s,
+   (s_scale s, s_offset s, s_min s, s_max s, s_unit s, s_enum s, s_gcount s, s_gsize s, s_desc s)).
+
+Lemma score_fields : forall a b, score a = score b ->
+  s_id a = s_id b /\ s_name a = s_name b /\ s_kind a = s_kind b /\ s_rel a = s_rel b /\ s_parent a = s_parent b /\
+  s_groups a = s_groups b /\ s_size a = s_size b /\ s_signed a = s_signed b /\ s_scale a = s_scale b /\ s_offset a = s_offset b /\
+  s_min a = s_min b /\ s_max a = s_max b /\ s_unit a = s_unit b /\ s_enum a = s_enum b /\ s_gcount a = s_gcount b /\
+  s_gsize a = s_gsize b /\ s_desc a = s_desc b.
+Proof. intros a b H. unfold score in H. inversion H. repeat split; assumption. Qed.
+
+Lemma find_sig_map : forall (g : signal -> signal) L p, (forall x, s_id (g x) = s_id x) ->
+  find_sig (map g L) p = option_map g (find_sig L p).
+Proof.
+  intros g L p Hg. unfold find_sig. induction L as [|x r IH]; [reflexivity|]. cbn [map find]. rewrite Hg.
+  destruct (s_id x =? p); [reflexivity|exact IH].
+Qed.
+
+Lemma abs_start_score : forall (g : signal -> signal) L, (forall x, score (g x) = score x) ->
+  forall k x y, score y = score x -> abs_start k (map g L) y = abs_start k L x.
+Proof.
+  intros g L Hg k. induction k as [|k IH]; intros x y Hxy; destruct (score_fields _ _ Hxy) as [_ [_ [_ [Hr [Hp _]]]]];
+    cbn [abs_start]; rewrite Hp, Hr; [reflexivity|].
+  destruct (s_parent x) as [p|]; [|reflexivity].
+  rewrite find_sig_map by (intros z; apply (score_fields _ _ (Hg z))).
+  destruct (find_sig L p) as [ps|]; cbn [option_map]; [|reflexivity].
+  rewrite (IH ps (g ps) (Hg ps)). unfold sel_width. destruct (score_fields _ _ (Hg ps)) as [_ [_ [_ [_ [_ [_ [_ [_ [_ [_ [_ [_ [_ [_ [Hgc _]]]]]]]]]]]]]]].
+  rewrite Hgc. reflexivity.
+Qed.
+
+Lemma proj_signal_score : forall es (g : signal -> signal) L x y, (forall z, score (g z) = score z) -> score y = score x ->
+  proj_signal es (map g L) y = ps_upd (proj_signal es L x) (s_startval y) (s_sendtype y) (proj_attrs (s_attrs y)).
+Proof.
+  intros es g L x y Hg Hxy. destruct (score_fields _ _ Hxy) as [_ [Hn [Hk [Hr [Hp [Hgr [Hsz [Hsg [Hsc [Hof [Hmn [Hmx [Hun [Hen [Hgc [Hgs Hd]]]]]]]]]]]]]]]].
+  unfold proj_signal, ps_upd, membership, sig_size, sel_width. rewrite map_length.
+  rewrite (abs_start_score g L Hg (length L) x y Hxy).
+  cbn [ps_name ps_kind ps_start ps_size ps_signed ps_scale ps_offset ps_min ps_max ps_unit ps_enum ps_parent ps_membership ps_desc].
+  rewrite Hn, Hk, Hp, Hgr, Hsz, Hsg, Hsc, Hof, Hmn, Hmx, Hun, Hen, Hgc, Hgs, Hd.
+  destruct (s_parent x) as [p|]; [|reflexivity].
+  rewrite find_sig_map by (intros z; apply (score_fields _ _ (Hg z))).
+  destruct (find_sig L p) as [ps|]; cbn [option_map]; [|reflexivity].
+  destruct (score_fields _ _ (Hg ps)) as [_ [Hn2 [_ [_ [_ [_ [_ [_ [_ [_ [_ [_ [_ [_ [Hgc2 _]]]]]]]]]]]]]]].
+  rewrite Hn2, Hgc2. reflexivity.
+Qed.
+
+Lemma score_strip : forall s, score (strip_sig s) = score s.
+Proof. reflexivity. Qed.
+Lemma score_app_sig : forall a s, score (app_sig a s) = score s.
+Proof. intros a s. unfold app_sig. destruct (special_of _) as [[]|]; try destruct (aa_val a); reflexivity. Qed.
+Lemma score_fin_sig : forall s x, score (fin_sig s x) = score x.
+Proof.
+  intros s x. unfold fin_sig. generalize (sort_attrs (s_attrs s) ++ wk_sig s). intros l. revert x.
+  induction l as [|a r IH]; intros x; cbn [fold_left]; [reflexivity|]. rewrite IH. apply score_app_sig.
+Qed.
+
+Lemma ps_upd_self : forall es L s,
+  ps_upd (proj_signal es L s) (s_startval s) (s_sendtype s) (proj_attrs (s_attrs s)) = proj_signal es L s.
+Proof. reflexivity. Qed.
+
+Lemma proj_signal_unstrip : forall es sigs s,
+  proj_signal es sigs s
+  = ps_upd (proj_signal es (map strip_sig sigs) (strip_sig s)) (s_startval s) (s_sendtype s) (proj_attrs (s_attrs s)).
+Proof.
+  intros es sigs s. rewrite (proj_signal_score es strip_sig sigs s (strip_sig s) score_strip (score_strip s)). reflexivity.
+Qed.
+
+(* ---------------- the by-name update as a map ---------------- *)
+Definition GU (l : list signal) (x : signal) : signal :=
+  fold_left (fun y s => if String.eqb (s_name y) (clear (s_name s)) then fin_sig s y else y) l x.
+
+Lemma upd_sigs_map : forall l sg, upd_sigs l sg = map (GU l) sg.
+Proof.
+  induction l as [|s r IH]; intros sg; cbn [upd_sigs fold_left GU].
+  - symmetry. apply map_id.
+  - fold (upd_sigs r (upd1 s sg)). rewrite IH. unfold upd1. rewrite map_map. reflexivity.
+Qed.
+
+Lemma GU_score : forall l x, score (GU l x) = score x.
+Proof.
+  induction l as [|s r IH]; intros x; cbn [GU fold_left]; [reflexivity|].
+  fold (GU r (if String.eqb (s_name x) (clear (s_name s)) then fin_sig s x else x)). rewrite IH.
+  destruct (String.eqb _ _); [apply score_fin_sig|reflexivity].
+Qed.
+
+Lemma GU_miss : forall l x, (forall s, In s l -> s_name x <> clear (s_name s)) -> GU l x = x.
+Proof.
+  induction l as [|s r IH]; intros x H; cbn [GU fold_left]; [reflexivity|].
+  destruct (String.eqb (s_name x) (clear (s_name s))) eqn:E; [apply String.eqb_eq in E; exfalso; apply (H s (or_introl eq_refl) E)|].
+  apply IH. intros s2 Hs2. apply H. right. assumption.
+Qed.
+
+Lemma GU_hit : forall l s x, NoDup (map (fun s => clear (s_name s)) l) -> In s l -> s_name x = clear (s_name s) ->
+  GU l x = fin_sig s x.
+Proof.
+  induction l as [|a r IH]; intros s x Hnd Hs Hn; [destruct Hs|]. cbn [map] in Hnd. inversion Hnd as [|? ? Hni Hr]; subst.
+  cbn [GU fold_left]. destruct Hs as [->|Hs].
+  - rewrite Hn, String.eqb_refl. apply GU_miss. intros s2 Hs2 Heq. rewrite fin_sig_name, Hn in Heq. apply Hni. rewrite Heq.
+    apply (in_map (fun s => clear (s_name s))). assumption.
+  - destruct (String.eqb (s_name x) (clear (s_name a))) eqn:E.
+    + apply String.eqb_eq in E. exfalso. apply Hni. rewrite <- E, Hn. apply (in_map (fun s => clear (s_name s))). assumption.
+    + apply IH; assumption.
+Qed.
+
+(* ---------------- what the structural import provides for a message, in a form both kinds of message share ---------------- *)
+Definition Base (es es' : list enum_def) (ms m' : message) : Prop :=
+  exists ord sigs',
+    m' = mkmessage (m_canid ms) (clear (m_name ms)) (m_size ms) ord 0 0 0 0 (clear (m_sender ms)) (recs_in ms) (m_desc ms) [] sigs' /\
+    (m_signals ms <> [] -> ord = m_order ms) /\
+    NoDup (map s_id sigs') /\ Permutation (map s_name sigs') (map (fun s => clear (s_name s)) (m_signals ms)) /\
+    forall s, In s (m_signals ms) -> exists x, In x sigs' /\ s_name x = clear (s_name s) /\
+       s_attrs x = [] /\ s_startval x = fl_zero /\ s_sendtype x = 0 /\
+       proj_signal es' sigs' x = proj_signal es (m_signals ms) s.
+
+Lemma proj_message_n : forall es es' m m' l,
+  Base es es' (strip_msg m) m' -> NoDup (map (fun s => clear (s_name s)) (m_signals m)) -> Permutation (m_signals m) l ->
+  user_asgs_ok (m_attrs m) -> 0 <= m_sendtype m < 5 ->
+  Forall (fun s => user_asgs_ok (s_attrs s) /\ fl_canonical (s_startval s) /\ 0 <= s_sendtype s < 8) (m_signals m) ->
+  (m_signals m = [] -> m_receivers m = []) ->
+  proj_message es' (set_m_signals (fin_matt m m') (upd_sigs l (m_signals m'))) = proj_message es m.
+Proof.
+  intros es es' m m' l [ord [sigs' [-> [Hord [Hids [Hpn Hsig]]]]]] Hnd Hpl Hu Hst Hsg Hre.
+  cbn [m_canid m_name m_size m_order m_sender m_receivers m_desc m_signals strip_msg] in *.
+  rewrite fin_matt_eval; try assumption; try reflexivity.
+  cbn [m_signals]. rewrite upd_sigs_map. unfold proj_message.
+  cbn [m_canid m_name m_size m_order m_cycle m_delay m_startdelay m_sendtype m_sender m_receivers m_desc m_attrs m_signals
+       set_m_signals set_m_times set_m_attrs].
+  rewrite !clear_spaces_idem, recs_in_strip, (proj_attrs_img _ (proj1 Hu)).
+  rewrite map_map in Hpn. cbn [s_name strip_sig] in Hpn.
+  assert (Hlen : length sigs' = length (m_signals m)).
+  { rewrite <- (map_length s_name), (Permutation_length Hpn), map_length. reflexivity. }
+  assert (Hordq : match map (GU l) sigs' with [] => LittleEndian | _ :: _ => ord end
+                  = match m_signals m with [] => LittleEndian | _ :: _ => m_order m end).
+  { destruct (m_signals m) eqn:Es; [destruct sigs'; [reflexivity|discriminate]|].
+    destruct sigs'; [discriminate|]. cbn [map]. apply Hord. discriminate. }
+  rewrite Hordq.
+  assert (Hrecs : sort_by str_ltb (map clear (recs_in m)) = sort_by str_ltb (map clear (m_receivers m))).
+  { unfold recs_in. destruct (m_signals m) eqn:Es.
+    - rewrite (Hre eq_refl). reflexivity.
+    - rewrite map_map. rewrite (map_ext (fun x => clear (clear x)) clear) by (intros; apply clear_spaces_idem).
+      apply sort_str_perm_eq. apply Permutation_map. apply Permutation_sym. apply sort_by_perm. }
+  rewrite Hrecs.
+  set (F := map (GU l) sigs').
+  assert (Hndl : NoDup (map (fun s => clear (s_name s)) l)) by (eapply Permutation_NoDup; [apply Permutation_map; exact Hpl|exact Hnd]).
+  assert (Hnn : NoDup (map s_name sigs')) by (eapply Permutation_NoDup; [apply Permutation_sym; exact Hpn|exact Hnd]).
+  assert (Core : forall s x, In s (m_signals m) -> In x sigs' -> s_name x = clear (s_name s) ->
+            s_attrs x = [] -> s_startval x = fl_zero -> s_sendtype x = 0 ->
+            proj_signal es' sigs' x = proj_signal es (map strip_sig (m_signals m)) (strip_sig s) ->
+            proj_signal es' F (GU l x) = proj_signal es (m_signals m) s).
+  { intros s x Hs Hx Hn Ha Hv Ht HB. rewrite Forall_forall in Hsg. destruct (Hsg s Hs) as [Hus [Hcan Hss]].
+    rewrite (GU_hit l s x Hndl (Permutation_in _ Hpl Hs) Hn).
+    unfold F. rewrite (proj_signal_score es' (GU l) sigs' x (fin_sig s x) (GU_score l) (score_fin_sig s x)).
+    rewrite fin_sig_eval by assumption. cbn [s_startval s_sendtype s_attrs set_s_special set_s_attrs].
+    rewrite (proj_attrs_img _ (proj1 Hus)), HB. symmetry. apply proj_signal_unstrip. }
+  assert (HP : Permutation (map (proj_signal es' F) F) (map (proj_signal es (m_signals m)) (m_signals m))).
+  { apply NoDup_Permutation.
+    - apply (NoDup_map_inv ps_name). rewrite map_map. cbn [ps_name proj_signal]. unfold F. rewrite map_map.
+      rewrite (map_ext _ (fun x => clear (s_name x))) by (intros x; destruct (score_fields _ _ (GU_score l x)) as [_ [E _]]; rewrite E; reflexivity).
+      rewrite <- (map_map s_name clear). eapply Permutation_NoDup; [apply Permutation_sym; apply Permutation_map; exact Hpn|].
+      rewrite map_map. rewrite (map_ext _ (fun s => clear (s_name s))) by (intros; apply clear_spaces_idem). exact Hnd.
+    - apply (NoDup_map_inv ps_name). rewrite map_map. cbn [ps_name proj_signal]. exact Hnd.
+    - intros p. split; intros Hp; apply in_map_iff in Hp.
+      + destruct Hp as [y [<- Hy]]. unfold F in Hy. apply in_map_iff in Hy. destruct Hy as [x [<- Hx]].
+        assert (Hin : In (s_name x) (map (fun s => clear (s_name s)) (m_signals m)))
+          by (eapply Permutation_in; [exact Hpn|apply in_map; assumption]).
+        apply in_map_iff in Hin. destruct Hin as [s [Hsn Hs]].
+        destruct (Hsig (strip_sig s) (in_map strip_sig _ _ Hs)) as [x2 [Hx2 [Hn2 [Ha2 [Hv2 [Ht2 HB2]]]]]]. cbn [s_name strip_sig] in Hn2.
+        assert (x2 = x) by (apply (NoDup_map_inj s_name sigs'); try assumption; rewrite Hn2, Hsn; reflexivity). subst x2.
+        fold F. rewrite (Core s x Hs Hx Hn2 Ha2 Hv2 Ht2 HB2). apply in_map. assumption.
+      + destruct Hp as [s [<- Hs]].
+        destruct (Hsig (strip_sig s) (in_map strip_sig _ _ Hs)) as [x [Hx [Hn2 [Ha2 [Hv2 [Ht2 HB2]]]]]]. cbn [s_name strip_sig] in Hn2.
+        rewrite <- (Core s x Hs Hx Hn2 Ha2 Hv2 Ht2 HB2). apply in_map. unfold F. apply in_map. assumption. }
+  assert (Hsigs : sort_by (fun a b => str_ltb (ps_name a) (ps_name b)) (map (proj_signal es' F) F)
+                  = sort_by (fun a b => str_ltb (ps_name a) (ps_name b)) (map (proj_signal es (m_signals m)) (m_signals m))).
+  { apply (keyed_sort_perm_eq ps_name); [exact HP|].
+    eapply Permutation_NoDup; [apply Permutation_map; apply Permutation_sym; exact HP|].
+    rewrite map_map. cbn [ps_name proj_signal]. exact Hnd. }
+  rewrite Hsigs. reflexivity.
+Qed.
+
+Lemma Forall2_in_l : forall {A B} (R : A -> B -> Prop) l l' x, Forall2 R l l' -> In x l -> exists y, In y l' /\ R x y.
+Proof.
+  intros A B R l l' x H. induction H; intros Hin; [destruct Hin|].
+  destruct Hin as [->|Hin]; [exists y; split; [left; reflexivity|assumption]|].
+  destruct (IHForall2 Hin) as [y0 [H1 H2]]. exists y0. split; [right; assumption|assumption].
+Qed.
+
+Lemma base_plain : forall names es st ms m',
+  emessage es names ms -> (forall s, In s (m_signals ms) -> enum_wf (e_of es s)) -> Rmsg es st ms m' ->
+  Base es (is_enums st) ms m'.
+Proof.
+  intros names es st ms m' Hem Hwf [sigs' [-> HR]].
+  pose proof Hem as [_ [_ [_ [_ [_ [_ [_ [Hps _]]]]]]]].
+  exists (match m_signals ms with [] => LittleEndian | _ => m_order ms end), sigs'. split; [reflexivity|].
+  split; [intros Hne; destruct (m_signals ms); [contradiction|reflexivity]|].
+  assert (Hid : map s_id sigs' = map fst (index_from 0 (m_signals ms))).
+  { eapply Forall2_map_eq; [exact HR|]. intros p x _ Hp. apply (proj2 (Rsig_name_id _ _ _ _ _ Hp)). }
+  assert (Hnm : map s_name sigs' = map (fun p => clear (s_name (snd p))) (index_from 0 (m_signals ms))).
+  { eapply Forall2_map_eq; [exact HR|]. intros p x _ Hp. apply (proj1 (Rsig_name_id _ _ _ _ _ Hp)). }
+  split; [rewrite Hid; apply ProofsIds.index_from_fst_nodup|].
+  split.
+  { rewrite Hnm, <- (map_map snd (fun s => clear (s_name s))), Proofs.index_from_snd. apply Permutation_refl. }
+  intros s Hs. destruct (in_index_from (m_signals ms) 0 s Hs) as [i Hi].
+  destruct (Forall2_in_l _ _ _ _ HR Hi) as [x [Hx HRx]]. cbn [fst snd] in HRx.
+  destruct (Rsig_id _ _ _ _ _ HRx) as [_ [A1 [A2 A3]]].
+  exists x. refine (conj Hx (conj (proj1 (Rsig_name_id _ _ _ _ _ HRx)) (conj A1 (conj A2 (conj A3 _))))).
+  rewrite Forall_forall in Hps. eapply proj_signal_e; [apply Hps; exact Hs|apply Hwf; exact Hs|exact HRx].
+Qed.
+
+Lemma Fimg_facts : forall es env names m mx mid gs S',
+  mmessage es names m -> In mx (m_signals m) -> is_muxb mx = true ->
+  (forall s, In s (m_signals m) -> is_muxb s = false ->
+     lookup key_eqb (u32 (m_canid m), clear (s_name s)) (ie_sig_enums env) = None /\
+     desc_of key_eqb (u32 (m_canid m), clear (s_name s)) (ie_sig_desc env) = s_desc s) ->
+  Permutation (m_signals m) S' ->
+  forall p, In p (index_from 0 S') ->
+    s_name (Fimg es env m mx mid gs p) = clear (s_name (snd p)) /\
+    s_attrs (Fimg es env m mx mid gs p) = [] /\ s_startval (Fimg es env m mx mid gs p) = fl_zero /\
+    s_sendtype (Fimg es env m mx mid gs p) = 0.
+Proof.
+  intros es env names m mx mid gs S' Hmm Hmx Hmxm Henv HpS p Hp.
+  pose proof (X_in m S' HpS p Hp) as Hs.
+  pose proof Hmm as [_ [_ [_ [_ [_ [_ [_ [[_ [_ [_ [Hu _]]]] _]]]]]]]].
+  unfold Fimg. destruct (is_muxb (snd p)) eqn:Em.
+  - rewrite (Hu (snd p) mx Hs Hmx Em Hmxm). cbn. auto.
+  - assert (Hne : snd p <> mx) by (intros E; rewrite E in Em; congruence).
+    destruct (img_fields es env m mx names Hmm Hmx Hmxm Henv (snd p) Hs Hne) as [Hn _].
+    destruct (is_topb (snd p)); unfold timg, kimg, std_imp, Import.place; cbn [s_name s_attrs s_startval s_sendtype]; auto.
+Qed.
+
+Lemma base_mux : forall names es env es' ms mx mid gs S',
+  mmessage es names ms -> In mx (m_signals ms) -> is_muxb mx = true ->
+  (forall s, In s (m_signals ms) -> is_muxb s = false ->
+     lookup key_eqb (u32 (m_canid ms), clear (s_name s)) (ie_sig_enums env) = None /\
+     desc_of key_eqb (u32 (m_canid ms), clear (s_name s)) (ie_sig_desc env) = s_desc s) ->
+  Permutation (m_signals ms) S' -> In (mid, mx) (index_from 0 S') ->
+  Base es es' ms (mkmessage (m_canid ms) (clear (m_name ms)) (m_size ms) (m_order ms) 0 0 0 0 (clear (m_sender ms)) (recs_in ms) (m_desc ms) []
+                            (mux_result es env ms mx mid gs S')).
+Proof.
+  intros names es env es' ms mx mid gs S' Hmm Hmx Hmxm Henv HpS Hmid.
+  exists (m_order ms), (mux_result es env ms mx mid gs S'). split; [reflexivity|]. split; [reflexivity|].
+  split; [apply (R_ids es env names ms mx mid gs S'); assumption|].
+  pose proof (R_map es env names ms mx mid gs S' Hmm Hmx Hmxm HpS) as HRm.
+  pose proof (XY_perm es names ms mx mid S' Hmm Hmx Hmxm HpS Hmid) as HXY.
+  pose proof (Fimg_facts es env names ms mx mid gs S' Hmm Hmx Hmxm Henv HpS) as HF.
+  split.
+  { rewrite HRm, map_map.
+    eapply Permutation_trans; [apply Permutation_map; apply Permutation_sym; exact HXY|].
+    rewrite (map_ext_in _ (fun p => clear (s_name (snd p)))) by (intros p Hp; apply (proj1 (HF p Hp))).
+    rewrite <- (map_map snd (fun s => clear (s_name s))), Proofs.index_from_snd.
+    apply Permutation_map. apply Permutation_sym. exact HpS. }
+  intros s Hs. assert (Hs' : In s S') by (eapply Permutation_in; [exact HpS|exact Hs]).
+  destruct (in_index_from S' 0 s Hs') as [i Hi].
+  destruct (HF (i, s) Hi) as [F1 [F2 [F3 F4]]]. cbn [snd] in F1.
+  exists (Fimg es env ms mx mid gs (i, s)). split.
+  { rewrite HRm. apply in_map. eapply Permutation_in; [exact HXY|exact Hi]. }
+  refine (conj F1 (conj F2 (conj F3 (conj F4 _)))).
+  apply (proj_pt es env names ms mx mid gs S' Hmm Hmx Hmxm Henv HpS Hmid es' (i, s) Hi).
+Qed.
+
+Lemma base_of_Rmsg_m : forall names es env st ms m',
+  mmessage es names ms -> (forall s, In s (m_signals ms) -> enum_wf (e_of es s)) ->
+  (forall s, In s (m_signals ms) ->
+     desc_of key_eqb (u32 (m_canid ms), clear (s_name s)) (ie_sig_desc env) = s_desc s /\
+     (s_kind s = KStandard -> lookup key_eqb (u32 (m_canid ms), clear (s_name s)) (ie_sig_enums env) = None)) ->
+  Rmsg_m es env st ms m' -> Base es (is_enums st) ms m'.
+Proof.
+  intros names es env st ms m' Hmm Hwf Henv [[Hnm HR]|[mx [mid [gs [S' [Hmx [Hmxm [-> [HpS [Hmid Hgs]]]]]]]]]].
+  - destruct (mmessage_plain es names ms Hmm Hnm) as [Hem _]. eapply base_plain; eauto.
+  - pose proof Hmm as [_ [_ [_ [_ [_ [_ [_ [[_ [_ [_ [_ [_ [_ Hstd]]]]]] _]]]]]]]].
+    apply (base_mux names); try assumption.
+    intros s Hs Hn. destruct (Henv s Hs) as [Hd Hl]. split; [apply Hl; exact (Hstd mx s Hmx Hmxm Hs Hn)|exact Hd].
+Qed.
+
+(* ---------------- one message of the attribute section ---------------- *)
+Definition fin_msg_n (m m' : message) : message := set_m_signals (fin_matt m m') (upd_sigs (SX m) (m_signals m')).
+Definition Rn (sm : list (key * (nat * Z))) (p : nat) (m m' : message) : Prop :=
+  m_canid m' = u32 (m_canid m) /\ NoDup (map s_id (m_signals m')) /\ NoDup (map s_name (m_signals m')) /\
+  forall s, In s (SX m) -> exists s', In s' (m_signals m') /\ s_name s' = clear (s_name s) /\
+     lookup key_eqb (u32 (m_canid m), clear (s_name s)) sm = Some (p, s_id s').
+
+Lemma one_msg_n : forall amap sm m m' cur pre post,
+  (forall t, In t (TM_msg m) -> t_ok amap t) -> b_messages cur = pre ++ m' :: post ->
+  (forall x, In x pre -> m_canid x <> m_canid m') -> Rn sm (length pre) m m' ->
+  fold_left (istep amap sm) (avs (TM_msg m)) (Ok cur) = Ok (set_b_messages cur (pre ++ fin_msg_n m m' :: post)).
+Proof.
+  intros amap sm m m' cur pre post Hok Hn Hpre [Hc [Hids [Hnms Hl]]].
+  unfold TM_msg. rewrite avs_app, fold_left_app.
+  rewrite (fold_msg amap sm (u32 (m_canid m)) _ cur pre m' post); try assumption.
+  - fold (fin_matt m m').
+    rewrite (fold_sigs_n amap sm (u32 (m_canid m)) (SX m) _ pre (fin_matt m m') post).
+    + rewrite fin_matt_signals. unfold fin_msg_n. destruct cur; reflexivity.
+    + intros t Ht. apply Hok. unfold TM_msg. apply in_or_app. right. assumption.
+    + reflexivity.
+    + rewrite fin_matt_signals. assumption.
+    + rewrite fin_matt_signals. assumption.
+    + rewrite fin_matt_signals. exact Hl.
+  - intros a Ha. assert (Ht : t_ok amap (mktasg OMessage EmptyString (u32 (m_canid m)) EmptyString a)).
+    { apply Hok. unfold TM_msg. apply in_or_app. left. apply in_map. assumption. }
+    destruct Ht as [H1 H2]. split; assumption.
+  - intros x Hx. rewrite <- Hc. apply Hpre. assumption.
+Qed.
+
+Lemma fin_msg_n_canid : forall m m', m_canid (fin_msg_n m m') = m_canid m'.
+Proof. intros m m'. unfold fin_msg_n. cbn [m_canid set_m_signals]. apply fin_matt_canid. Qed.
+
+Lemma fin_msg_n_sender : forall m m', m_sender (fin_msg_n m m') = m_sender m'.
+Proof.
+  intros m m'. unfold fin_msg_n. cbn [m_sender set_m_signals]. unfold fin_matt.
+  generalize (sort_attrs (m_attrs m) ++ wk_msg m). intros l. revert m'.
+  induction l as [|a r IH]; intros m'; cbn [fold_left]; [reflexivity|]. rewrite IH. apply app_msg_sender.
+Qed.
+
+(* ---------------- the fragment: attributes on every entity, over the structure of RoundTripMux ---------------- *)
+Definition ambus (b : bus) : Prop :=
+  grouped b /\ mbus (strip_bus b) /\ T_ok (TM_bus b) /\
+  user_asgs_ok (b_attrs b) /\ Forall (fun n => user_asgs_ok (n_attrs n)) (b_nodes b) /\
+  Forall (fun m => user_asgs_ok (m_attrs m) /\ 0 <= m_sendtype m < 5 /\
+            Forall (fun s => user_asgs_ok (s_attrs s) /\ fl_canonical (s_startval s) /\ 0 <= s_sendtype s < 8) (m_signals m))
+         (b_messages b).
+
+Lemma all_t_ok_m : forall b amap, ambus b ->
+  (forall t, In t (TM_bus b) -> lookup String.eqb (tname t) amap = Some (t_def t)) ->
+  forall t, In t (TM_bus b) -> t_ok amap t.
+Proof.
+  intros b amap [_ [_ [_ [Hub [Hun Hum]]]]] Hl t Ht. pose proof (Hl t Ht) as Hlk.
+  unfold TM_bus in Ht. apply in_app_or in Ht. destruct Ht as [Ht|Ht].
+  - apply in_map_iff in Ht. destruct Ht as [a [<- Ha]]. destruct (user_asg_ok _ a Hub Ha) as [H1 [H2 H3]].
+    split; [split; assumption|exact H2].
+  - apply in_flat_map in Ht. destruct Ht as [n [Hn Ht]]. unfold TM_node in Ht. apply in_app_or in Ht. destruct Ht as [Ht|Ht].
+    + apply in_map_iff in Ht. destruct Ht as [a [<- Ha]]. rewrite Forall_forall in Hun.
+      destruct (user_asg_ok _ a (Hun n Hn) Ha) as [H1 [H2 H3]]. split; [split; assumption|exact H2].
+    + apply in_flat_map in Ht. destruct Ht as [m [Hm Ht]]. apply filter_In in Hm. destruct Hm as [Hm _].
+      rewrite Forall_forall in Hum. destruct (Hum m Hm) as [Hua [Hst Hsg]].
+      unfold TM_msg in Ht. apply in_app_or in Ht. destruct Ht as [Ht|Ht].
+      * apply in_map_iff in Ht. destruct Ht as [a [<- Ha]]. apply in_app_or in Ha. destruct Ha as [Ha|Ha].
+        -- destruct (user_asg_ok _ a Hua Ha) as [H1 [H2 H3]]. split; [split; assumption|]. cbn [t_kind t_asg]. unfold masg_ok. rewrite H3. exact H2.
+        -- destruct (wk_msg_ok m a Hst Ha) as [H1 H2]. split; [split; assumption|exact H2].
+      * apply in_flat_map in Ht. destruct Ht as [s [Hs Ht]]. apply SX_in in Hs.
+        rewrite Forall_forall in Hsg. destruct (Hsg s Hs) as [Hus [Hcan Hss]].
+        unfold T_sig in Ht. apply in_map_iff in Ht. destruct Ht as [a [<- Ha]]. apply in_app_or in Ha. destruct Ha as [Ha|Ha].
+        -- destruct (user_asg_ok _ a Hus Ha) as [H1 [H2 H3]]. split; [split; assumption|]. cbn [t_kind t_asg]. unfold sasg_ok. rewrite H3. exact H2.
+        -- destruct (wk_sig_ok s a Hcan Hss Ha) as [H1 H2]. split; [split; assumption|exact H2].
+Qed.
+
+(* the relation the attribute section needs, from the structural import *)
+Lemma build_Rs : forall es es' sm names l l' p,
+  Forall (fun m => mmessage es names (strip_msg m)) l ->
+  Forall2 (fun m m' => Base es es' (strip_msg m) m') l l' ->
+  SMs sm p (map strip_msg l) l' ->
+  Rs (Rn sm) p l l'.
+Proof.
+  intros es es' sm names l l' p Hmm HF. revert p. induction HF as [|m m' r r' HB HF IH]; intros p HS; cbn [map SMs Rs] in *; [exact I|].
+  inversion Hmm as [|? ? Hm Hr]; subst. destruct HS as [Hsm HS]. split; [|apply IH; assumption].
+  pose proof Hm as [_ [_ [_ [_ [_ [Hid _]]]]]]. cbn [m_canid strip_msg] in Hid.
+  destruct HB as [ord [sigs' [-> [_ [Hids [Hpn _]]]]]]. unfold Rn. cbn [m_canid m_signals strip_msg] in *.
+  split; [rewrite u32_id by lia; reflexivity|]. split; [exact Hids|]. split.
+  { eapply Permutation_NoDup; [apply Permutation_sym; exact Hpn|]. rewrite map_map. cbn [s_name strip_sig]. apply (names_nodup es names m Hm). }
+  intros s Hs. apply SX_in in Hs. destruct (Hsm (strip_sig s) (in_map strip_sig _ _ Hs)) as [s' [H1 [H2 H3]]].
+  exists s'. cbn [m_signals m_canid strip_msg s_name strip_sig] in *. auto.
+Qed.
+
+Lemma Forall2_conj_base : forall names es env st l l',
+  Forall (fun m => mmessage es names (strip_msg m)) l ->
+  (forall m, In m l -> forall s, In s (m_signals (strip_msg m)) -> enum_wf (e_of es s)) ->
+  (forall m s, In m l -> In s (m_signals (strip_msg m)) ->
+     desc_of key_eqb (u32 (m_canid (strip_msg m)), clear (s_name s)) (ie_sig_desc env) = s_desc s /\
+     (s_kind s = KStandard -> lookup key_eqb (u32 (m_canid (strip_msg m)), clear (s_name s)) (ie_sig_enums env) = None)) ->
+  Forall2 (fun m m' => Rmsg_m es env st (strip_msg m) m') l l' ->
+  Forall2 (fun m m' => Base es (is_enums st) (strip_msg m) m') l l'.
+Proof.
+  intros names es env st l l' Hmm Hwf Henv HF. induction HF as [|m m' r r' HR HF IH]; [constructor|].
+  inversion Hmm as [|? ? Hm Hr]; subst. constructor.
+  - eapply base_of_Rmsg_m; [exact Hm| | |exact HR].
+    + intros s Hs. apply (Hwf m (or_introl eq_refl) s Hs).
+    + intros s Hs. apply (Henv m s (or_introl eq_refl) Hs).
+  - apply IH; [assumption| |].
+    + intros m0 Hm0. apply Hwf. right. assumption.
+    + intros m0 s Hm0. apply Henv. right. assumption.
+Qed.
+
+Definition all_result (b : bus) (es' : list enum_def) (msgs' : list message) : bus :=
+  mkbus (b_name b) (b_desc b) (map RoundTripAttr.img (sort_attrs (b_attrs b)))
+        (zipf fin_node (b_nodes b) (mk_nodes 0 (map strip_node (b_nodes b)))) es' (zipf fin_msg_n (b_messages b) msgs').
+
+Theorem export_import_all_thm : forall b, ambus b ->
+  exists b', export_import b = Ok b' /\ proj_bus b' = proj_bus b.
+Proof.
+  intros b Hab. pose proof Hab as [Hg [Hsb [HT [Hub [Hun Hum]]]]].
+  destruct (export_mg b Hg Hsb) as [L HE].
+  set (d := text_roundtrip (amdoc b L)).
+  assert (D2 : d_nodes d = map (fun n => clear (n_name n)) (b_nodes (strip_bus b))).
+  { cbn. rewrite map_map. reflexivity. }
+  assert (D4 : d_messages d = map (dmsg_m (b_enums (strip_bus b))) (b_messages (strip_bus b))).
+  { cbn. rewrite map_map. apply map_ext. intros m. symmetry. apply dmsg_m_strip. }
+  assert (D5 : d_comments d = doc_cms (strip_bus b)) by (symmetry; apply doc_cms_strip).
+  assert (D6 : d_valencs d = bus_vencs (strip_bus b)) by (symmetry; apply bus_vencs_strip).
+  destruct (import_struct_m (strip_bus b) L d Hsb eq_refl D2 eq_refl D4 D5 D6 eq_refl) as [st' [msgs' [env [HI [HF [HS HL]]]]]].
+  cbn [b_name b_desc b_nodes b_messages b_enums strip_bus] in HI, HF, HS, HL.
+  destruct (attrs_map_ok (TM_bus b) HT) as [amap [Hfold Hlk]]. cbv zeta in Hfold.
+  pose proof (all_t_ok_m b amap Hab Hlk) as Hok.
+  destruct Hsb as [_ [_ [Hnn [Hdm [_ [Hms [Hcan [_ [_ Hes]]]]]]]]].
+  cbn [b_nodes b_messages b_enums strip_bus] in Hnn, Hdm, Hms, Hcan, Hes.
+  rewrite map_map in Hnn, Hdm, Hcan. cbn [n_name strip_node m_canid strip_msg] in Hnn, Hdm, Hcan.
+  pose proof (strip_msgs_m _ _ _ Hms) as Hms'.
+  apply Forall2_map_l in HF.
+  assert (HB : Forall2 (fun m m' => Base (b_enums b) (is_enums st') (strip_msg m) m') (b_messages b) msgs').
+  { eapply Forall2_conj_base; [exact Hms'| | |exact HF].
+    - intros m _ s _. apply enum_wf_nth. assumption.
+    - intros m s Hm Hs. apply (HL (strip_msg m) s); [apply in_map; assumption|assumption]. }
+  assert (Hcan' : map m_canid msgs' = map m_canid (b_messages b)).
+  { eapply Forall2_map_eq; [exact HF|]. intros m m' _ HR. destruct (Rmsg_m_head _ _ _ _ _ HR) as [E _]. exact E. }
+  assert (Hrel : Rs (Rn (is_sigmap st')) 0 (b_messages b) msgs').
+  { eapply build_Rs; [exact Hms'|exact HB|exact HS]. }
+  exists (all_result b (is_enums st') msgs'). split.
+  - unfold export_import. rewrite HE. fold d. rewrite HI. rewrite import_attributes_unfold.
+    change (d_attrdefs d) with (map reparse_def (ea_attrdefs (AM_of b))). change (d_attrs d) with (ea_attrs (AM_of b)).
+    unfold AM_of at 1 2. rewrite Hfold. cbn [bind].
+    assert (Hvals : d_attrvals d = avs (TM_bus b)).
+    { change (d_attrvals d) with (map reparse_val (ea_attrvals (AM_of b))). unfold AM_of. rewrite fold_exp_vals. reflexivity. }
+    rewrite Hvals. unfold TM_bus. rewrite avs_app, fold_left_app.
+    rewrite fold_gen.
+    2:{ intros a Ha. assert (Ht : t_ok amap (mktasg OGeneral EmptyString 0 EmptyString a)).
+        { apply Hok. unfold TM_bus. apply in_or_app. left. apply in_map. assumption. }
+        destruct Ht as [H1 H2]. split; assumption. }
+    cbn [b_attrs].
+    change (flat_map (TM_node b) (b_nodes b)) with (flat_map (Tn b TM_msg) (b_nodes b)).
+    rewrite (gen_nodes amap (is_sigmap st') b TM_msg fin_msg_n (Rn (is_sigmap st')) (one_msg_n amap (is_sigmap st')) fin_msg_n_canid
+               (b_nodes b) (mk_nodes 0 (map strip_node (b_nodes b))) _ []
+               [mknode dummy_node 1024 EmptyString []] [] msgs' []).
+    + cbn [app bind]. rewrite app_nil_r. unfold finish.
+      cbn [b_messages b_nodes set_b_messages set_b_nodes set_b_attrs].
+      unfold grouped in Hg. rewrite Hg.
+      assert (Hnos : existsb (fun m => String.eqb (m_sender m) dummy_node) (zipf fin_msg_n (b_messages b) msgs') = false).
+      { destruct (existsb _ _) eqn:E; [|reflexivity]. exfalso.
+        apply existsb_exists in E. destruct E as [x [Hx He]]. apply String.eqb_eq in He.
+        assert (Hsend : exists m, In m (b_messages b) /\ m_sender x = clear (m_sender m)).
+        { clear - HF Hx. induction HF as [|m m' r r' HR HF IH]; cbn [zipf] in Hx; [destruct Hx|].
+          destruct Hx as [<-|Hx].
+          - exists m. split; [left; reflexivity|]. rewrite fin_msg_n_sender. destruct (Rmsg_m_head _ _ _ _ _ HR) as [_ [E _]]. exact E.
+          - destruct (IH Hx) as [m1 [Hm1 Hs1]]. exists m1. split; [right; assumption|assumption]. }
+        destruct Hsend as [m [Hm Hs]]. rewrite Forall_forall in Hms'.
+        destruct (Hms' m Hm) as [_ [_ [_ [_ [_ [_ [_ [_ [_ [Hsn _]]]]]]]]]]. cbn [m_sender strip_msg] in Hsn.
+        rewrite map_map in Hsn. cbn [n_name strip_node] in Hsn. apply in_map_iff in Hsn. destruct Hsn as [n [Hn1 Hn2]].
+        apply Hdm. apply in_map_iff. exists n. split; [|assumption]. rewrite Hn1, <- Hs. assumption. }
+      rewrite Hnos. rewrite filter_app. cbn [filter String.eqb negb]. rewrite app_nil_r.
+      rewrite filter_all.
+      2:{ intros x Hx. assert (Hin : In (n_name x) (map n_name (zipf fin_node (b_nodes b) (mk_nodes 0 (map strip_node (b_nodes b))))))
+            by (apply in_map; assumption).
+          rewrite zipf_names, mk_nodes_names, map_map in Hin. cbn [n_name strip_node] in Hin.
+          destruct (String.eqb (n_name x) dummy_node) eqn:E; [|reflexivity]. apply String.eqb_eq in E. rewrite E in Hin. contradiction. }
+      unfold all_result, set_b_nodes. cbn [b_name b_desc b_attrs b_enums b_messages].
+      rewrite fold_app_attrs by (cbn [map app]; apply (proj1 (user_sorted _ Hub))). reflexivity.
+    + intros t Ht. apply Hok. unfold TM_bus. apply in_or_app. right. assumption.
+    + reflexivity.
+    + apply mk_nodes_strip_rel.
+    + cbn [app]. rewrite map_app, mk_nodes_names, map_map. cbn [map n_name strip_node]. apply NoDup_snoc; assumption.
+    + intros n Hn Heq. apply Hdm. rewrite <- Heq. apply (in_map (fun n => clear (n_name n))). assumption.
+    + cbn [app b_messages set_b_attrs]. rewrite app_nil_r. reflexivity.
+    + cbn [app]. rewrite app_nil_r, Hcan'. assumption.
+    + cbn [length]. unfold grouped in Hg. rewrite Hg. exact Hrel.
+  - unfold proj_bus, all_result. cbn [b_desc b_attrs b_nodes b_enums b_messages]. f_equal.
+    + apply proj_attrs_img. apply (proj1 Hub).
+    + apply proj_nodes_fin. assumption.
+    + f_equal.
+      eapply (zipf_map_eq (fun m m' => Base (b_enums b) (is_enums st') (strip_msg m) m')); [exact HB|].
+      intros m m' Hm HBm. rewrite Forall_forall in Hms', Hum. destruct (Hum m Hm) as [U1 [U2 U3]].
+      pose proof (Hms' m Hm) as Hmm. unfold fin_msg_n.
+      apply proj_message_n; try assumption.
+      * apply (names_nodup (b_enums b) _ m Hmm).
+      * apply (SX_perm (b_enums b) _ m Hmm).
+      * destruct Hmm as [_ [_ [_ [_ [_ [_ [_ [_ [_ [_ [_ [_ Hre]]]]]]]]]]]]. cbn [m_signals m_receivers strip_msg] in Hre.
+        intros E. apply Hre. rewrite E. reflexivity.
+Qed.
+
+(* ------------------------------------------------------------------------------------------
+   the hypothesis is satisfiable: the bus of RoundTripMux.example_mux_bus with attributes on the bus, a node,
+   the message that holds the multiplexer (with the dedicated timing / send-type fields), a plain signal, the
+   multiplexer itself and two of its children (start value, send type, user attribute), and on the enum signal
+   of the second message
+   ------------------------------------------------------------------------------------------ *)
+Local Open Scope string_scope.
+Definition example_all_bus : bus :=
+  mkbus "bus" "mux" [mkasg "BusStr" (DefString "d") (ValString "x")]
+    [mknode "ECU 1" 3 "" []; mknode "GW" 7 "" [mkasg "NInt" (DefInt 1 0 10 false) (ValInt 5)]]
+    [ mkenum "on off" [(1, "on"); (0, "off")] 1 0 ]
+    [ mkmessage 256 "status" 4 LittleEndian 100 0 7 2 "ECU 1" ["GW"] ""
+        [mkasg "MHex" (DefInt 0 0 255 true) (ValInt 16); mkasg "MEnum" (DefEnum "a" ["a"; "b"]) (ValString "b")]
+        [ mksignal 0 "a" KStandard 0 None [] 8 false fl_one fl_zero fl_zero (mkfl 255 0) "" 0 0 0 "first" fl_zero 0 [a_flt (mkfl 1 1)];
+          mksignal 1 "mode sel" KMux 8 None [] 0 false fl_one fl_zero fl_zero fl_zero "" 0 4 16 "the switch" fl_zero 3 [a_flt (mkfl 3 (-1))];
+          std_sig 2 "c0" 0 8 (Some 1) [0] "";
+          mksignal 3 "c1" KStandard 0 (Some 1) [1] 4 false fl_one fl_zero fl_zero (mkfl 255 0) "" 0 0 0 "" (mkfl 3 0) 0 [a_flt (mkfl 5 (-1))];
+          mksignal 4 "c 2" KStandard 4 (Some 1) [1] 12 false fl_one fl_zero fl_zero (mkfl 255 0) "" 0 0 0 "" fl_zero 2 [];
+          std_sig 5 "z" 26 6 None [] "" ];
+      mkmessage 512 "other" 1 BigEndian 0 20 0 0 "GW" [] "second" []
+        [ mksignal 0 "n" KEnum 0 None [] 0 false fl_one fl_zero fl_zero fl_zero "" 0 0 0 "" fl_zero 3 [a_flt (mkfl 1 1)] ] ].
+
+Example example_all_bus_ok : ambus example_all_bus.
+Proof.
+  unfold ambus. split; [reflexivity|]. split.
+  { change (strip_bus example_all_bus) with example_mux_bus. exact example_mux_bus_ok. }
+  split.
+  { unfold T_ok. let L := eval vm_compute in (TM_bus example_all_bus) in change (TM_bus example_all_bus) with L. split.
+    - apply Forall_forall.
+      repeat (apply Forall_cons;
+        [unfold t_def; cbn [t_asg aa_def]; unfold wf_def, msg_cycle_att, msg_delay_att, msg_start_delay_att, msg_send_att, sig_start_att, sig_send_att;
+         first [exact I
+               | (split; [lia|intros Hh; first [discriminate Hh | (split; cbn; lia)]])
+               | (split; [reflexivity|split; [reflexivity|first [left; split; reflexivity|right; reflexivity]]])
+               | (split; [repeat constructor; cbn; intuition discriminate|eexists; reflexivity])]|]).
+      apply Forall_nil.
+    - match goal with |- forall t t', In t ?L -> _ =>
+        assert (HH : Forall (fun t => Forall (fun t' => tname t = tname t' -> t_def t = t_def t') L) L) end.
+      { repeat (apply Forall_cons; [repeat (apply Forall_cons; [intros Hh; first [reflexivity | (vm_compute in Hh; discriminate Hh)]|]); apply Forall_nil|]).
+        apply Forall_nil. }
+      intros t t' Ht Ht'. rewrite Forall_forall in HH. specialize (HH t Ht). rewrite Forall_forall in HH. apply HH; assumption. }
+  split; [asgs_tac|]. split.
+  { repeat (apply Forall_cons; [cbn [n_attrs]; asgs_tac|]). apply Forall_nil. }
+  repeat (apply Forall_cons; [cbn [m_attrs m_sendtype m_signals]; split; [asgs_tac|]; split; [lia|];
+     repeat (apply Forall_cons; [cbn [s_attrs s_startval s_sendtype std_sig]; split; [asgs_tac|]; split; [first [left; split; reflexivity|right; reflexivity]|lia]|]);
+     try apply Forall_nil|]).
+  apply Forall_nil.
+Qed.
+
+Example example_all_bus_roundtrip :
+  exists b', export_import example_all_bus = Ok b' /\ proj_bus b' = proj_bus example_all_bus /\
+             map (fun m => (m_cycle m, m_startdelay m, m_sendtype m, map aa_name (m_attrs m),
+                            map (fun s => (s_name s, s_parent s, s_groups s, s_startval s, s_sendtype s, map aa_val (s_attrs s))) (m_signals m)))
+                 (b_messages b')
+             = [ (100, 7, 2, ["MEnum"; "MHex"],
+                  [ ("a", None, [], fl_zero, 0, [ValFloat (mkfl 1 1)]); ("z", None, [], fl_zero, 0, []);
+                    ("mode_sel", None, [], fl_zero, 3, [ValFloat (mkfl 3 (-1))]);
+                    ("c0", Some 1, [0], fl_zero, 0, []); ("c1", Some 1, [1], mkfl 3 0, 0, [ValFloat (mkfl 5 (-1))]);
+                    ("c_2", Some 1, [1], fl_zero, 2, []) ]);
+                 (0, 0, 0, [], [("n", None, [], fl_zero, 3, [ValFloat (mkfl 1 1)])]) ].
+Proof. eexists. split; [vm_compute; reflexivity|]. split; vm_compute; reflexivity. Qed.
